@@ -153,6 +153,8 @@ def compile_ast(ast: Dict[str, Any]) -> List[List[Dict[str, Any]]]:
             elif k == "lg1":                       # qubit register written by load
                 p.emit("set", R(4), s["q"])
                 p.emit("load", Q(s.get("lr", 0)), 1, R(4))       # lr: a register that no `set` in the text may ever write
+                if s.get("body"):
+                    body(s["body"], depth)                      # other gates between the load and the use of the loaded register
                 gate(s["g"], [Q(s.get("lr", 0))], s.get("imm"))
             elif k == "lg2":
                 p.emit("set", R(4), s["a"])
@@ -353,6 +355,11 @@ def directed() -> List[Dict[str, Any]]:
                 D.append({**c_c, "regstyle": style, "body": [{"s": "g1", "g": "h", "q": 1}, {"s": "g1", "g": "h", "q": 2},
                                                            {"s": "if", "on": "arr", "slot": 0, "cmp": "eq", "v": v, "body": [{"s": "g2", "g": g, "a": a1, "b": b1}]},
                                                            {"s": "g2", "g": g, "a": a2, "b": b2}], "ret": True})
+    # a qubit register that only a load writes stays live across a carbon-carbon gate (which borrows a scratch register)
+    four_ = {"nq": 4, "alloc": [0, 1, 2, 3]}
+    for g in ("cnot", "cphase"):
+        D.append({**four_, "body": [{"s": "lg1", "g": "x", "q": 3, "lr": 2, "body": [{"s": "g1", "g": "h", "q": 1}, {"s": "g2", "g": g, "a": 1, "b": 2}]},
+                                    {"s": "g1", "g": "h", "q": 3}], "ret": True})
     # many carbon-carbon gates in one subroutine (each borrows a scratch register), single-qubit gates in between
     for style in ("sdk", "perqubit"):
         many = []
